@@ -604,8 +604,14 @@ def _dist_cont(case):
         tm = abs(tm) + 0.05
     tv = float(ND[dtype](cv2 * (tm * tm if logn else 1.0)))
     am, av = _arg(tm, case["form"], dtype), _arg(tv, case["form"], dtype)
+    pre = [a_.clone() if isinstance(a_, torch.Tensor) else None for a_ in (am, av)]
     with impl(f"{name}.params_mv"):
         pl, ps = D.params_mv(am, av)
+    # the round trip as a caller writes it compares with the arguments it passed: they must still hold the targets
+    for nm_, a_, p_ in (("mean", am, pre[0]), ("variance", av, pre[1])):
+        if p_ is not None:
+            check(torch.equal(a_, p_), f"{name}:params_mv:argument",
+                  lambda: f"{name}.params_mv(mean={tm!r}, variance={tv!r}) changed the caller's {nm_} tensor to {float(a_.reshape(-1)[0])!r}")
     with impl(f"{name}.mean/variance(params_mv)"):
         if logn:
             rm, rv = D.mean(pl, ps), D.variance(pl, ps)
